@@ -96,6 +96,9 @@ class C12(Prop):
         if any(c["proto"] == "quic" for c in spec["conns"]):
             out.count("reach:quic_world")
         for name, cont in spec.get("variants", []):
+            if lane.expired():
+                out.count("enumeration_truncated_by_budget")
+                break
             s2 = self.with_container(spec, cont)
             ex = world.expand(s2)
             res = run_export(lane, s2, ex, out, infile_name="in.pcap" if cont.get("fmt") == "pcap" else "in.pcapng")
